@@ -3,6 +3,7 @@
 //
 //	-mode cache    RequestCache.Get/SetMap/GetMap: gated fetch functions, every start/finish order
 //	-mode compute  common.ComputePatches (through the verif hook): gated PatchFunc, every completion order
+//	-mode strategy the real override / relax strategies against a client handing out shared unsorted slices (for -race)
 //	-mode walk     filesystem.Run over a slow in-memory FS for > 2 s (meant for the -race build)
 package main
 
@@ -131,6 +132,8 @@ func main() {
 			ps = append(ps, coqObsPatch(p))
 		}
 		fmt.Printf("coq-patches: %s\n", cf.List(ps))
+	case "strategy":
+		strategyMain(*seed, *tier, *replay)
 	case "walk":
 		runWalk(time.Duration(*walkMs) * time.Millisecond)
 	default:
